@@ -116,7 +116,7 @@ pub fn strategy() -> BoxedStrategy<C19Case> {
         (prop_oneof![3 => Just(false), 1 => Just(true)], proptest::bool::weighted(0.15), prop_oneof![8 => Just(0u16), 1 => 1u16..6, 1 => Just(3000u16)]),
         prop_oneof![2 => Just(false), 1 => Just(true)],
         prop_oneof![3 => Just(0u8), 1 => Just(15u8), 1 => Just(40u8)],
-        proptest::option::weighted(0.3, proptest::sample::select(vec![".r", ".done", "-x"]).prop_map(|s| s.to_string())),
+        proptest::option::weighted(0.3, proptest::sample::select(vec![".r", ".done", "-x", ""]).prop_map(|s| s.to_string())),
         prop_oneof![4 => Just(None), 1 => Just(Some(WTtl::Head(2))), 1 => Just(Some(WTtl::Ephemeral)), 1 => Just(Some(WTtl::Time(60_000)))],
         prop_oneof![5 => Just(false), 1 => Just(true)],
     )
